@@ -31,8 +31,9 @@ func init() {
 		Level: "model_checking",
 		// generous internal deadline: the run takes 1-2 minutes on an idle machine and several times that next to other jobs
 		QuickBudget: 900,
-		Rule: "all histories of <=1 (thorough <=2) earlier programs followed by a program under test over an alphabet of 81 programs (incl. source files loaded by relative path - a module that raises, one that does not parse, a good one - and regular expressions whose texts share one symbol key) (incl. pairs that raise the same run-time error from different source positions, and programs that invite!/import the embedded and Go standard modules after defining variables) (define a variable, read it, shadow a built-in name, use a built-in, raise `_` on different lines, touch Either's abstract props, raise at depth 2, syntax error, intern new symbols via evalEnv, print, read stdin, iterate, user error, error inside native code, inspect built-in prototypes), " +
+		Rule: "all histories of <=1 (thorough <=2) earlier programs followed by a program under test over an alphabet of 80 programs (incl. source files loaded by relative path - a module that raises, one that does not parse, a good one - and regular expressions whose texts share one symbol key) (incl. pairs that raise the same run-time error from different source positions, and programs that invite!/import the embedded and Go standard modules after defining variables) (define a variable, read it, shadow a built-in name, use a built-in, raise `_` on different lines, touch Either's abstract props, raise at depth 2, syntax error, intern new symbols via evalEnv, print, read stdin, iterate, user error, error inside native code, inspect built-in prototypes), " +
 			"each history in a new process, under 2 reuse drivers (playground: one const env, one enclosed scope per program - the call sequence of web/wasm/executor.go; `pangaea test`: runscript.RunTest over a generated directory); " +
+			"corpus family: every script of the repository's tests/ directory (336 at present) after itself, after its neighbour, and after both, in one interpreter; " +
 			"oracle: (stdout, value, error message, stack trace) of the program under test equals its observation alone in a new process; states = histories, transitions = program evaluations; " +
 			"non-trivial = every history of length >=1; distinct = distinct (driver, history, program); round 8: The alphabet (68 programs) also has operations that fail part-way (caught) next to the same operations done plainly, and many failed deep calls next to a 9900-deep recursion.",
 		Assumptions: []string{
@@ -508,7 +509,52 @@ func gen(c *core.Ctx, thorough bool, emit func(tcase)) {
 	}
 }
 
+// corpus family: every script of the repository's own tests/ directory (read from the tree under test) is evaluated
+// after itself and after its neighbour in one interpreter (playground driver): it must be observed as it is alone.
+func runCorpus(c *core.Ctx) {
+	files, _ := filepath.Glob(filepath.Join(os.Getenv("PANMC_REPO"), "tests", "*.pangaea"))
+	sort.Strings(files)
+	if len(files) == 0 {
+		c.Note("corpus_files", 0)
+		return
+	}
+	c.Note("corpus_files", len(files))
+	read := func(i int) prog {
+		b, _ := os.ReadFile(files[i])
+		return prog{Name: "tests/" + filepath.Base(files[i]), Src: string(b)}
+	}
+	tk.Sharded(c, len(files), func(i int) {
+		p := read(i)
+		want, ok := runProcess(c, "playground", []prog{p})
+		if !ok {
+			return
+		}
+		for _, hist := range [][]prog{{p}, {read((i + len(files) - 1) % len(files))}, {read((i + 1) % len(files)), p}} {
+			c.Eval(1)
+			c.State(1)
+			c.Transition(len(hist) + 1)
+			got, ok := runProcess(c, "playground", append(append([]prog{}, hist...), p))
+			if !ok {
+				return
+			}
+			c.Validated(1)
+			c.Nontrivial(1)
+			c.Outcome("corpus:" + map[bool]string{true: "same", false: "differs"}[got == want])
+			if got != want {
+				var hn []string
+				for _, h := range hist {
+					hn = append(hn, h.Name)
+				}
+				c.Violation(core.Violation{Key: "corpus/" + p.Name + "/differs-after-earlier-programs", Case: core.JSON(map[string]interface{}{"corpus": p.Name, "history": hn}), Desc: p.Name + " after " + strings.Join(hn, ", "),
+					Expected: fmt.Sprintf("alone: %+v", want), Observed: fmt.Sprintf("after history: %+v", got)})
+				return
+			}
+		}
+	})
+}
+
 func run(c *core.Ctx) {
+	runCorpus(c)
 	var cases []tcase
 	gen(c, c.Thorough(), func(t tcase) { cases = append(cases, t) })
 	c.Note("histories_total", len(cases))
@@ -522,6 +568,13 @@ func run(c *core.Ctx) {
 }
 
 func replay(c *core.Ctx, raw json.RawMessage) {
+	var cp struct {
+		Corpus string `json:"corpus"`
+	}
+	if json.Unmarshal(raw, &cp) == nil && cp.Corpus != "" {
+		runCorpus(c)
+		return
+	}
 	var t tcase
 	if err := json.Unmarshal(raw, &t); err != nil {
 		c.HarnessError("bad case: %v", err)
